@@ -142,11 +142,15 @@ func intervalOverlaps(lims []*limit) []overlap {
 			if l.typ == start {
 				endLeaf = endLeaf.Prev()
 			}
-			overlaps = append(overlaps, overlap{
-				indices: openIndices(),
-				start:   lastStart,
-				end:     endLeaf,
-			})
+			// An end limit directly followed by a start limit at the next leaf
+			// leaves no leaf in between: there is no overlap to report.
+			if lastStart <= endLeaf {
+				overlaps = append(overlaps, overlap{
+					indices: openIndices(),
+					start:   lastStart,
+					end:     endLeaf,
+				})
+			}
 		}
 
 		switch l.typ {
